@@ -1357,6 +1357,8 @@ class Model:
                 md5.update(str(item.e_str).encode())
             if item.diag_eps is not None:
                 md5.update(str(item.diag_eps).encode())
+            if item.deps is not None:
+                md5.update(str(item.deps).encode())
 
         for name, item in self.services.items():
             md5.update(str(name).encode())
@@ -1365,6 +1367,13 @@ class Model:
                 md5.update(str(item.v_str).encode())
 
             md5.update(str(int(item.sequential)).encode())
+            md5.update(str(item.vtype.__name__).encode())
+
+        for name, item in self.services_subs.items():
+            md5.update(str(name).encode())
+
+            if item.v_str is not None:
+                md5.update(str(item.v_str).encode())
 
         for name, item in self.discrete.items():
             md5.update(str(name).encode())
